@@ -21,6 +21,13 @@ func main() {
 		os.Exit(core.ExitInfra)
 	}
 	id := os.Args[1]
+	if id == "pin" {
+		if err := checks.WritePinned(); err != nil {
+			fmt.Fprintln(os.Stderr, err)
+			os.Exit(core.ExitInfra)
+		}
+		return
+	}
 	tier := os.Getenv("VERIF_TIER")
 	replay := ""
 	for i := 2; i < len(os.Args); i++ {
